@@ -34,6 +34,8 @@ FAMILIES = [
     ("codec_predef", "style='codec', predef=True"), ("config_predef", "style='config', predef=True"),
     # calls that pass a dialect (every other call / every call) to classes with ADD_DIALECT_SUPPORT, plain variants included
     ("annotated_plain_dialect", "style='annotated', mixin=False, dialect='alt'"), ("config_dialect", "style='config', dialect='alt'"),
+    # other Annotated metadata items before the Discriminator
+    ("annotated_extra", "style='annotated', ann_extra=True"), ("codec_extra", "style='codec', ann_extra=True"),
     # a second discriminated field with ANOTHER tagger function, declared first in the same holder
     ("annotated_two_taggers", "style='annotated', tagger=True, two=True"),
     # Config discriminator on a plain root, holder typed with the bare root; calls alternating from_dict / from_json
